@@ -1,0 +1,236 @@
+//go:build verif
+
+package federation
+
+import (
+	"sort"
+	"sync"
+
+	"github.com/hashicorp/serf/serf"
+	"go.uber.org/zap"
+	"google.golang.org/grpc"
+
+	"github.com/DrmagicE/gmqtt"
+	"github.com/DrmagicE/gmqtt/persistence/subscription"
+	"github.com/DrmagicE/gmqtt/persistence/subscription/mem"
+	"github.com/DrmagicE/gmqtt/retained"
+	"github.com/DrmagicE/gmqtt/server"
+)
+
+// Hooks for the verification harness (build tag verif). They only give access to the
+// unexported pieces of the plugin; none of them contains federation logic of its own.
+
+var verifOnce sync.Once
+
+// VerifNewFederation builds a Federation value the way New and Load do, without serf,
+// without the gRPC listener and without the API registration. Peer streams are not
+// started by nodeJoin (servePeerEventStream is stubbed); the harness drives them.
+func VerifNewFederation(nodeName string, subs server.SubscriptionService, ret retained.Store, pub server.Publisher) *Federation {
+	verifOnce.Do(func() {
+		if log == nil {
+			log = zap.NewNop()
+		}
+		servePeerEventStream = func(p *peer) {}
+	})
+	f := &Federation{
+		config:        &Config{NodeName: nodeName},
+		nodeName:      nodeName,
+		localSubStore: &localSubStore{},
+		fedSubStore: &fedSubStore{
+			TrieDB:     mem.NewStore(),
+			sharedSent: map[string]uint64{},
+		},
+		serfEventCh: make(chan serf.Event, 1),
+		sessionMgr: &sessionMgr{
+			sessions: map[string]*session{},
+		},
+		peers: make(map[string]*peer),
+		exit:  make(chan struct{}),
+		wg:    &sync.WaitGroup{},
+	}
+	f.localSubStore.init(subs)
+	f.retainedStore = ret
+	f.publisher = pub
+	return f
+}
+
+func verifMemberEvent(t serf.EventType, name string) serf.MemberEvent {
+	return serf.MemberEvent{Type: t, Members: []serf.Member{{Name: name, Tags: map[string]string{"fed_addr": "verif"}}}}
+}
+
+// VerifNodeJoin runs nodeJoin for one member, as eventHandler does on EventMemberJoin.
+func (f *Federation) VerifNodeJoin(name string) {
+	f.nodeJoin(verifMemberEvent(serf.EventMemberJoin, name))
+}
+
+// VerifNodeFail runs nodeFail for one member, as eventHandler does on EventMemberFailed/Leave/Reap.
+func (f *Federation) VerifNodeFail(name string) {
+	f.nodeFail(verifMemberEvent(serf.EventMemberFailed, name))
+}
+
+func (f *Federation) verifPeer(name string) *peer {
+	f.memberMu.Lock()
+	defer f.memberMu.Unlock()
+	return f.peers[name]
+}
+
+// VerifPeerNames returns the names of the current peers, sorted.
+func (f *Federation) VerifPeerNames() []string {
+	f.memberMu.Lock()
+	defer f.memberMu.Unlock()
+	var ns []string
+	for n := range f.peers {
+		ns = append(ns, n)
+	}
+	sort.Strings(ns)
+	return ns
+}
+
+// VerifQueueState is a snapshot of a peer's eventQueue.
+type VerifQueueState struct {
+	Events   []*Event // the list, front to back
+	NextRead int      // index in Events of nextRead, -1 when nil
+	Dangling bool     // nextRead points to an element that is no longer in the list
+	NextID   uint64
+	Closed   bool
+}
+
+// VerifPeerQueue returns the state of the event queue of the peer, ok=false when there is no such peer.
+func (f *Federation) VerifPeerQueue(name string) (st VerifQueueState, ok bool) {
+	p := f.verifPeer(name)
+	if p == nil {
+		return st, false
+	}
+	q := p.queue.(*eventQueue)
+	q.cond.L.Lock()
+	defer q.cond.L.Unlock()
+	st.NextRead = -1
+	i := 0
+	for e := q.l.Front(); e != nil; e = e.Next() {
+		st.Events = append(st.Events, e.Value.(*Event))
+		if e == q.nextRead {
+			st.NextRead = i
+		}
+		i++
+	}
+	st.Dangling = q.nextRead != nil && st.NextRead == -1
+	st.NextID = q.nextID
+	st.Closed = q.closed
+	return st, true
+}
+
+// VerifPeerSessionID returns the session id the peer presents in Hello.
+func (f *Federation) VerifPeerSessionID(name string) string {
+	if p := f.verifPeer(name); p != nil {
+		return p.sessionID
+	}
+	return ""
+}
+
+// VerifEmit appends an event to the queue of one peer (what the hooks do for every peer).
+func (f *Federation) VerifEmit(name string, ev *Event) bool {
+	p := f.verifPeer(name)
+	if p == nil {
+		return false
+	}
+	p.queue.add(ev)
+	return true
+}
+
+// VerifInitStream runs the client side of the handshake (peer.initStream) against the given client.
+func (f *Federation) VerifInitStream(name string, client FederationClient, conn *grpc.ClientConn) error {
+	p := f.verifPeer(name)
+	if p == nil {
+		return nil
+	}
+	_, err := p.initStream(client, conn)
+	return err
+}
+
+// VerifStreamFail reports a stream error the way readLoop/sendEvents do (stream.setError).
+func (f *Federation) VerifStreamFail(name string, err error) {
+	p := f.verifPeer(name)
+	if p == nil {
+		return
+	}
+	p.stateMu.Lock()
+	s := p.stream
+	p.stateMu.Unlock()
+	if s != nil {
+		s.setError(err)
+	}
+}
+
+// VerifFetch is one fetchEvents call of the sendEvents loop; it returns nil instead of
+// blocking when there is nothing to read (and when the queue is closed, as fetchEvents does).
+func (f *Federation) VerifFetch(name string) []*Event {
+	p := f.verifPeer(name)
+	if p == nil {
+		return nil
+	}
+	q := p.queue.(*eventQueue)
+	q.cond.L.Lock()
+	block := (q.l.Len() == 0 || q.nextRead == nil) && !q.closed
+	q.cond.L.Unlock()
+	if block {
+		return nil
+	}
+	return p.queue.fetchEvents()
+}
+
+// VerifAck is what readLoop does with a received Ack.
+func (f *Federation) VerifAck(name string, id uint64) {
+	if p := f.verifPeer(name); p != nil {
+		p.queue.ack(id)
+	}
+}
+
+// VerifSession returns the server-side session kept for a node.
+func (f *Federation) VerifSession(nodeName string) (id string, nextEventID uint64, seen []uint64, ok bool) {
+	sess := f.sessionMgr.get(nodeName)
+	if sess == nil {
+		return "", 0, nil, false
+	}
+	for e := sess.seenEvents.l.Front(); e != nil; e = e.Next() {
+		seen = append(seen, e.Value.(uint64))
+	}
+	return sess.id, sess.nextEventID, seen, true
+}
+
+// VerifHandleEvent applies one event through eventStreamHandler on the session of the node
+// (nil when the node has no session).
+func (f *Federation) VerifHandleEvent(nodeName string, ev *Event) *Ack {
+	sess := f.sessionMgr.get(nodeName)
+	if sess == nil {
+		return nil
+	}
+	return f.eventStreamHandler(sess, ev)
+}
+
+// VerifOpenSession is sessionMgr.add.
+func (f *Federation) VerifOpenSession(nodeName, id string) (cleanStart bool, nextID uint64) {
+	return f.sessionMgr.add(nodeName, id)
+}
+
+// VerifSendMessage is sendMessage.
+func (f *Federation) VerifSendMessage(msg *gmqtt.Message) (drop bool, options *subscription.IterationOptions) {
+	return f.sendMessage(msg)
+}
+
+// VerifFedSubs returns the federation subscription tree (node name = client id).
+func (f *Federation) VerifFedSubs() *mem.TrieDB { return f.fedSubStore.TrieDB }
+
+// VerifLocalTopics returns a copy of localSubStore.topics (full topic name -> reference count).
+func (f *Federation) VerifLocalTopics() map[string]uint64 {
+	f.localSubStore.Lock()
+	defer f.localSubStore.Unlock()
+	m := make(map[string]uint64, len(f.localSubStore.topics))
+	for k, v := range f.localSubStore.topics {
+		m[k] = v
+	}
+	return m
+}
+
+// VerifEventToMessage / VerifMessageToEvent are the two converters.
+func VerifEventToMessage(m *Message) *gmqtt.Message { return eventToMessage(m) }
+func VerifMessageToEvent(m *gmqtt.Message) *Message { return messageToEvent(m) }
